@@ -210,6 +210,17 @@ def check_endian(ck: Checker, rule, modules, public, exempt):
             missing = [p for p in seq_params if p not in reversed_at_entry]
             ck.check(not missing, rule, m, fn, f'{q}: every operand number is brought to little-endian at entry under big_endian',
                      f'operands {missing} are not reversed under `if big_endian:` although {sorted(reversed_at_entry)} are', construct=f'{q} operand reversal')
+            # operand lists may be padded / trimmed only after they were brought to little-endian
+            rev_line = min((node.lineno for node in walk_no_nested(fn) if isinstance(node, ast.If) and is_name(node.test, 'big_endian')
+                            and any(norm(s_).endswith('.reverse()') or norm(s_).endswith('[::-1]') for s_ in node.body)), default=None)
+            early = []
+            for c in calls_in(fn):
+                if isinstance(c.func, ast.Attribute) and isinstance(c.func.value, ast.Name) and c.func.value.id in seq_params \
+                        and c.func.attr in ('append', 'insert', 'extend', 'pop', 'remove') and rev_line is not None and c.lineno < rev_line:
+                    early.append(c)
+            ck.check(not early, rule, m, early[0] if early else fn, f'{q}: operand numbers are resized only after they were brought to little-endian',
+                     f'`{norm(early[0])[:90] if early else ""}` pads/trims an operand before the big-endian reversal: the padding lands at the least significant end of a big-endian number',
+                     construct=f'{q} resize after reversal')
             for r, w in zip(rets, wraps):
                 ck.check(w is True, rule, m, r, f'{q}: every returned number is converted back under big_endian',
                          f'`{norm(r)[:120]}` returns a little-endian result ' + ('by delegating with big_endian after the operands were already reversed' if w == 'delegate' else 'without reverse_if_big_endian'),
